@@ -52,10 +52,11 @@ let cmd_exp (t : string list) =
       List.iter (fun v -> out ("#lqr " ^ string_of_val v)) (in_files (log_qr x0 ops) xf.x_blk.b_qrs);
       List.iter (fun v -> out ("#lmm " ^ string_of_val v)) (in_files (log_mm x0 ops) xf.x_blk.b_mms);
       (* address events: for every decoded key submitted, the total the theorem puts into the files = log_aec - what is still buffered *)
-      let keys = List.fold_left (fun acc o -> match o with XAec (ga, _) -> let k = dkey ga in if List.exists (fun k' -> okey_eqb k' k) acc then acc else acc @ [k] | _ -> acc) [] ops in
+      let accepted = log_aec_keys x0 ops in
+      let keys = List.fold_left (fun acc k -> if List.exists (fun k' -> okey_eqb k' k) acc then acc else acc @ [k]) [] accepted in
       let buffered = List.map (gen_aec (tbs_of_tables xf.x_blk.b_tb)) xf.x_blk.b_aecs in
       List.iter (fun k ->
-        let n = N.sub (log_aec x0 ops k) (dec_total k buffered) in
+        let n = N.sub (count_key k accepted) (dec_total k buffered) in
         if n <> N0 then out ("#laec " ^ string_of_val (VR (k @ [Some (VN n)])))) keys)
   | ["end"] -> close_output (destroy x); g_x := None
   | _ -> out "? unknown exporter op"
